@@ -124,6 +124,21 @@ def correspond(ctx):
         if got != gc["expected"]:
             ctx.monitor_fail("golden-identifier-changed", f"identifiers pinned from the reference commit changed: expected {gc['expected'][:2]}…, got {str(got)[:140]}",
                              {"golden_case": gi, "graph": gc["graph"]})
+    # job directory: jobs/<type id>/<identifier> of a really submitted task (dry run / generate-only)
+    slibs, scases = identlib.submit_cases(ctx, rng, "c01sub", ctx.scale(2, 8), ctx.scale(8, 40))
+    for case, rec in zip(scases, identlib.run_submit(ctx, slibs, scases)):
+        if rec["error"]:
+            ctx.count("submit_case_errors", rec["error"][:60])
+            continue
+        ctx.case({"submit": case["graph"]}, True)
+        ctx.count("submit_cases", "ok")
+        for v in rec["variants"]:
+            want = f"{v['typeid']}/{rec['unsubmitted']}"
+            if v["relpath"] != want or v["jobdir"] != "jobs/" + want or v["identifier"] != rec["unsubmitted"] or (v["params_identifier"] not in (None, rec["unsubmitted"])):
+                ctx.monitor_fail("job-directory-not-derived-from-identifier",
+                                 f"submitted task ({v['env']}): job directory {v['jobdir']} / identifier {v['identifier'][:16]}… / params.json {str(v['params_identifier'])[:16]}…, "
+                                 f"expected jobs/{want[:40]}… (identifier before submission)", {"graph": case["graph"], "variant": v})
+                break
     errs = sum(1 for r in base if r["error"])
     if errs > len(base) // 10:
         raise RuntimeError(f"{errs}/{len(base)} generated cases could not be built: {next(r['error'] for r in base if r['error'])}")
